@@ -26,7 +26,7 @@ pub const PROPS: &[&str] = &[
     "C18", "C19", "C20",
 ];
 
-pub static WORLDS: &[&'static dyn World] = &[&w_iovec::IovecWorld, &w_codec::CodecWorld, &w_codec::LongWorld, &w_stream::StreamWorld, &w_threads::ThreadsWorld, &w_vtime::VtimeWorld, &w_threads::NfsThreadsWorld];
+pub static WORLDS: &[&'static dyn World] = &[&w_iovec::IovecWorld, &w_codec::CodecWorld, &w_codec::LongWorld, &w_stream::StreamWorld, &w_threads::ThreadsWorld, &w_vtime::VtimeWorld, &w_threads::NfsThreadsWorld, &w_threads::ChunkThreadsWorld];
 
 const DEFAULT_SEED: u64 = 20261004;
 
@@ -36,6 +36,7 @@ pub fn crash_property(world: &str) -> &'static str {
     match world {
         "threads" => "C13",
         "vtime" | "nfsthreads" => "C19",
+        "chunkthreads" => "C10",
         _ => "C05",
     }
 }
@@ -109,7 +110,7 @@ fn jobs_for(prop: &'static str, thorough: bool, scale: f64) -> (Vec<Job>, &'stat
             }
             (jobs, "exploration")
         }
-        "C10" => (vec![mk("iovec", 0.5), mk("codec", 0.4), mk("stream", 0.3), mk("longrun", 1.0)], "exploration"),
+        "C10" => (vec![mk("iovec", 0.5), mk("codec", 0.4), mk("stream", 0.3), mk("longrun", 1.0), mk("chunkthreads", 1.0)], "exploration"),
         "C17" => (vec![mk("iovec", 0.6), mk("codec", 0.6)], "exploration"),
         _ => {
             eprintln!("harness: no jobs for {}", prop);
@@ -132,7 +133,7 @@ fn selftest(n: u64) -> i32 {
         String::from_utf8_lossy(&out.stdout).to_string()
     };
     let mut bad = 0;
-    for (world, prop, scale) in [("iovec", "C03", 1), ("codec", "C01", 4), ("stream", "C06", 4), ("threads", "C13", 2), ("threads", "C18", 1), ("vtime", "C19", 1), ("longrun", "C09", 0)] {
+    for (world, prop, scale) in [("iovec", "C03", 1), ("codec", "C01", 4), ("stream", "C06", 4), ("threads", "C13", 2), ("threads", "C18", 1), ("vtime", "C19", 1), ("nfsthreads", "C18", 1), ("chunkthreads", "C10", 2), ("longrun", "C09", 0)] {
         let n = if scale == 0 { 4 } else { n * scale };
         for seed in [1u64, 20261004] {
             let a = run(world, prop, seed, 0, n);
